@@ -11,8 +11,11 @@ FAIL = {
     'C04': ('sem', 'no-result'),
     'C05': ('sem', 'no-result'),
     'C06': ('sem', 'no-result'),
-    'C07': ('clause', 'no-result'),
-    'C20': ('clause', 'shape', 'no-result'),
+    'C07': ('clause', 'no-result', 'rows', 'truevars'),
+    'C20': ('clause', 'shape', 'no-result', 'rows'),
+    'C10': ('header', 'rows', 'truevars', 'no-result', 'accept'),
+    'C11': ('header', 'rows', 'order', 'roundtrip', 'accept'),
+    'C12': ('panic',),
 }
 
 BDD_RULE = {
@@ -46,17 +49,34 @@ def text(parts, exhaustive=True):
                 rule='; '.join('%s: %s' % (p, TEXT_RULE[p]) for p in parts))
 
 
+CLI_RULE = {
+    'grid': 'option grid on 40 fixed formulas (every construct): all 15 accepted spellings of -f, the three input channels (stdin, file, --evaluate), -c {t,f,True,false} x -m, -m alone and with -f t, -b {1,2,3}; every run asks for -t -v -r together; header, row set, -v lines and -r list are compared',
+    'order': '12 formulas over <=3 names x all 65 sequences of distinct names from {a,b,c,u} (permutations, subsets, supersets with the unused name u before/between/after) as ordering file, plus files with duplicates, punctuation, keywords, numbers, comments, empty; every run also feeds its own -r output back with -o and requires the identical table (round trip)',
+    'random': 'seeded random formulas (monotone-by-construction fixed points, <=6 names) x random option sets (-f, -c, -m, -b, channel) x random ordering files (unused names, duplicates, separators), half of those with round trip',
+    'robustbin': 'the binary on seeded arbitrary bytes as formula and as ordering file (raw bytes incl. invalid UTF-8, token soups with huge / non-ASCII numerals, NUL, stray quotes and braces, mutated formulas, nesting up to 200, long chains) x option sets; exit class and absence of a panic message',
+    'robustlib': 'in-process tokenize/new/eval plus both DOT renderers under all filters, retain, model and to_free_index on every node of answer and model, under catch_unwind, on seeded arbitrary bytes (same generator); Ok/Err class compared with the model',
+}
+
+
+def cli(parts, exhaustive=False):
+    return dict(suite='cli', parts=parts, profile='release', bins='debug', exhaustive=exhaustive,
+                rule='; '.join('%s: %s' % (p, CLI_RULE[p]) for p in parts))
+
+
 PROPS = {
     'C02': dict(suites=[bdd(['conn', 'quant', 'count', 'fp', 'model', 'retain', 'clean', 'mixed'])]),
     'C01': dict(suites=[text(['tok', 'parse', 'eval'])]),
     'C08': dict(suites=[text(['tok', 'parse'])]),
     'C09': dict(suites=[text(['eval'])]),
+    'C10': dict(suites=[cli(['grid', 'order', 'random'])]),
+    'C11': dict(suites=[cli(['order', 'random'])]),
+    'C12': dict(suites=[cli(['robustlib', 'robustbin', 'grid'])]),
     'C03': dict(suites=[bdd(['conn'])]),
     'C04': dict(suites=[bdd(['quant'])]),
     'C05': dict(suites=[bdd(['count']), text(['evalc'])]),
     'C06': dict(suites=[bdd(['fp']), text(['evalfp'], exhaustive=False)]),
-    'C07': dict(suites=[bdd(['model'])]),
-    'C20': dict(suites=[bdd(['retain'])]),
+    'C07': dict(suites=[bdd(['model']), cli(['grid'])]),
+    'C20': dict(suites=[bdd(['retain']), cli(['grid'])]),
 }
 
 HOOK_COMMITS = ['d9157ce']
@@ -115,3 +135,16 @@ _t('C08', 'Theorems: the scanner satisfies the maximal-munch lexing relation Lex
 _t('C09', 'Theorems: var_is_free f x holds iff x has an occurrence not enclosed by a binder of x (C09_free, over the explicit occurrence list occ f), and the support of the evaluated diagram is included in the free variables (C09_support, proved semantically via independence and essentiality of support variables). '
           'vars/free_vars as computed by new_with_env are modelled in Cli/Pipeline.v (sorted, duplicate-free, free = filter var_is_free). Correspondence: vars, free_vars and the support of the real result on every S-eval case (binder-only names, shadowing, names both bound and free).',
    NOTE_TEXT)
+
+NOTE_CLI = ('Trusted: Coq kernel; extraction + ocamlopt; glue. Modelled, not verified: clap/argfile/wild argument parsing, file and pipe I/O, text padding of the table '
+            '(rows are parsed back by splitting on "|"), the timing output of -b. The binary is built from /repo (debug profile, overflow checks on) and run as a child process; '
+            'rows and -v lines are compared as sets. Run-time phenomena no Gallina model exhibits (stack depth, allocation failure, closed stdout) are covered only by the robustness runs.')
+_t('C10', 'Theorems: for an ordered diagram whose support lies in the duplicate-free column list, the printer model returns rows such that every assignment matches exactly one row and that row carries beval (C10_partition; '
+          'no lookup failure, i.e. no panic); the filtered table is the filter of the full table (C10_filter), the -v lines are the true rows (C10_vars). The pipeline that produces header, columns and the printed diagram (tokens -> vars -> free_vars -> eval -> retain -> model) is the Gallina function cli. '
+          'Correspondence: the real binary against cli on the option grid (15 filter spellings, 3 channels, -c, -m, -b), all small orderings, random formulas/options/ordering files: header, row set, -v set.', NOTE_CLI)
+_t('C11', 'Theorem C11_meaning: evaluating a formula renamed by any id map with a left inverse yields a diagram that denotes the same function of the renamed variables (so a different ordering changes shape, not meaning). '
+          'The id assignment under an ordering (preload, continue after the largest id) and the ordering-file reader are part of the Gallina pipeline cli. Partial: that two orderings induce renamings of one another is shown by correspondence, not proved at lexer level. '
+          'Correspondence: 12 formulas x all 65 orderings over {a,b,c,u} incl. supersets with unused names in every position, duplicate/punctuation/keyword files, random ordering files; header order, row set by name, -r list, and the -r/-o round trip on the real binary.', NOTE_CLI)
+_t('C12', 'Theorems (logical core): on the answer of a parsed formula the table printer\'s column lookup never fails (C12_table, from C09_support and the partition theorem), and fixed-point-free formulas always evaluate (C12_eval). '
+          'The tokenizer/parser/evaluator model returns Error (never a panic value) on every input, and the correspondence shows the implementation returns Err exactly there. Partial by nature: stack exhaustion, allocation failure, clap and I/O are run-time behaviour. '
+          'Correspondence: 40k in-process arbitrary byte strings per quick run through tokenize/new/eval, both DOT renderers, retain, model, to_free_index under catch_unwind; 1000 runs of the binary on arbitrary bytes as formula and ordering file with random options (exit status 0/1/2, no panic message); the option grid.', NOTE_CLI)
